@@ -321,12 +321,14 @@ inductive Facet where
   | enum (vals : List (List Char))
   | maxLength (n : Nat)
   | pattern (p : Pattern)
+  | named (k : Nat)            -- no constraint: keeps a named restriction distinct from its base (for `xsi:type`)
 deriving Repr, DecidableEq
 
 def Facet.ok : Facet → List Char → Bool
   | .enum vals, s => vals.contains s
   | .maxLength n, s => s.length ≤ n
   | .pattern p, s => p.ok s
+  | .named _, _ => true
 
 inductive SimpleTy where
   | prim (b : Builtin)
